@@ -236,3 +236,90 @@ def long_strings(ctx, alphabet, count, lo=20, hi=300):
                 s.append(rng.choice(marks) if rng.random() < 0.7 else rng.choice(alphabet))
             out.append(s)
     return out
+
+
+# ---- coverage-guided search for inputs (libFuzzer through cargo-fuzz), used only when the source differs from the reference
+# copy (escalation) or in the thorough tier.  The fuzzer is NOT an oracle: it explores the library code of the tree under
+# check and its corpus — inputs that reach new branches, e.g. both sides of a fast path a change introduced, at the lengths,
+# alignments and character combinations that take — is run through the ordinary correspondence afterwards.
+FUZZ_KINDS = {
+    0: lambda h, a, b: [f'prof|um|enforce|f|b|{h}|'], 1: lambda h, a, b: [f'prof|up|enforce|f|b|{h}|'],
+    2: lambda h, a, b: [f'prof|op|enforce|f|b|{h}|'], 3: lambda h, a, b: [f'prof|nick|enforce|f|b|{h}|'],
+    4: lambda h, a, b: [f'prof|nick|compare|f|b|{h}|{h}'], 5: lambda h, a, b: [f'rules|um|width|{h}', f'rules|um|dir|{h}'],
+    6: lambda h, a, b: [f'rules|um|case|{h}'], 7: lambda h, a, b: [f'rules|nick|addmap|{h}', f'rules|op|addmap|{h}'],
+    8: lambda h, a, b: [f'allows.id|{h}'], 9: lambda h, a, b: [f'allows.ff|{h}'],
+    10: lambda h, a, b: [f'rules|nick|norm|{h}', f'rules|op|norm|{h}'],
+    11: lambda h, a, b: [f'prof|nick|compare|f|b|{a}|{b}', f'prof|um|compare|f|b|{a}|{b}'],
+}
+
+
+def fuzz_cases(ctx, kinds, seconds=None):
+    """protocol cases from a coverage-guided exploration of the CURRENT tree; [] on the unchanged tree in the quick tier"""
+    import glob
+    import subprocess
+    import verif
+    if not (getattr(ctx, 'escalated', None) or ctx.tier == 'thorough'):
+        return []
+    if os.environ.get('VERIF_NO_FUZZ'):
+        return []
+    seconds = seconds or (40 if ctx.requested_tier == 'quick' else 60)
+    fz = os.path.join(verif.VERIF, 'fuzz')
+    work = os.path.join(verif.CACHE, 'fuzz-work')
+    corpus = os.path.join(verif.CACHE, 'fuzz-corpus', 'ops')
+    target = os.path.join(verif.CACHE, 'fuzz-target')
+    os.makedirs(work, exist_ok=True)
+    os.makedirs(corpus, exist_ok=True)
+    env = dict(verif.ENV)
+    env['CARGO_NET_OFFLINE'] = 'true'
+    lock = os.path.join(verif.REPO, 'Cargo.lock')
+    if os.path.exists(lock):
+        import shutil
+        shutil.copy(lock, os.path.join(fz, 'Cargo.lock'))
+    if not os.listdir(corpus):
+        for i, s in enumerate(['aAé b', 'אְב', 'l·l', 'ＡÅ', '  a  b ', 'क्‍', 'a' * 40 + '世']):
+            for op in range(12):
+                open(os.path.join(corpus, f'seed{i}_{op}'), 'wb').write(bytes([op]) + s.encode())
+    b = subprocess.run(['cargo', '+nightly', 'fuzz', 'build', '--fuzz-dir', fz, '--target-dir', target, 'ops'], cwd=fz, env=env, text=True,
+                       stdout=subprocess.PIPE, stderr=subprocess.STDOUT)
+    if b.returncode != 0:
+        log('fuzz target does not build (skipped): ' + b.stdout[-300:].replace('\n', ' '))
+        return []
+    art = os.path.join(work, 'artifacts')
+    import shutil
+    shutil.rmtree(art, ignore_errors=True)
+    os.makedirs(art, exist_ok=True)
+    subprocess.run(['cargo', '+nightly', 'fuzz', 'run', '--fuzz-dir', fz, '--target-dir', target, 'ops', corpus, '--',
+                    f'-max_total_time={seconds}', '-jobs=12', '-workers=12', f'-dict={os.path.join(fz, "dict.txt")}', '-max_len=400', '-len_control=0',
+                    f'-artifact_prefix={art}/'], cwd=work, env=env, text=True, stdout=subprocess.PIPE, stderr=subprocess.STDOUT)
+    files = sorted(glob.glob(os.path.join(art, '*')), key=os.path.getmtime) + sorted(glob.glob(os.path.join(corpus, '*')), key=os.path.getmtime, reverse=True)[:25000]
+    cases = []
+    ncrash = 0
+    for fn in files:
+        try:
+            data = open(fn, 'rb').read()
+        except OSError:
+            continue
+        if not data:
+            continue
+        k = data[0] % 12
+        if k not in kinds:
+            continue
+        s = data[1:].decode('utf-8', errors='replace')
+        cps = [ord(c) for c in s]
+        if k == 11:
+            bs = s.encode('utf-8')
+            m = len(bs) // 2
+            while m > 0 and (bs[m] & 0xC0) == 0x80:
+                m -= 1
+            a, b_ = bs[:m].decode('utf-8'), bs[m:].decode('utf-8')
+            cases += FUZZ_KINDS[k]('', hexs([ord(c) for c in a]), hexs([ord(c) for c in b_]))
+        else:
+            cases += FUZZ_KINDS[k](hexs(cps), '', '')
+        if fn.startswith(art):
+            ncrash += 1
+    for f_ in glob.glob(os.path.join(work, 'fuzz-*.log')):
+        os.remove(f_)
+    cases = list(dict.fromkeys(cases))
+    log(f'coverage-guided search: {seconds}s, {len(files)} corpus/crash inputs ({ncrash} crashes) -> {len(cases)} cases for kinds {sorted(kinds)}')
+    ctx.fuzz_info = {'seconds': seconds, 'inputs': len(files), 'crash_inputs': ncrash, 'cases': len(cases)}
+    return cases
